@@ -37,15 +37,17 @@ META = {
     "explanation": (
         "All rules compare MyST's inventory loader with the installed sphinx.util.inventory (parsed, never imported) or check "
         "structural necessary conditions of chunk-independence. Private helpers are followed (records built by a helper, "
-        "expression helpers inlined, store helpers with local aliases and return-guards, a per-line parse helper of the v2 loop "
-        "inlined into an analysis view of the loader), hoisted module constants are resolved. "
+        "expression helpers inlined, store helpers with local aliases and return-guards - also when they receive the parsed "
+        "entry as one NamedTuple/dataclass value -, per-line parse helpers of the v1 and v2 loops inlined into an analysis view "
+        "of the loaders, stores through a local alias of a sub-table), hoisted module constants are resolved. "
         "R1: the v2 entry regex (re._parser tree, group count, flags without VERBOSE), the match function and the subject "
         "normalisation (line.rstrip()) equal Sphinx's. "
         "R2 (v2 loader, from_sphinx): domain:objtype is cut at the FIRST ':' (split(':', 1) / partition; rsplit/rpartition "
         "are reported) and the cut is dominated by the ':' test (or its ValueError is caught and the entry skipped); the "
         "py:module first-wins skip exists and skips exactly when (type is py:module and already present) - truth table over "
         "type == 'py:module' / domain == 'py' / objtype == 'module' / tuple comparisons / membership in the table or a local "
-        "alias of it; the '$' shorthand is expanded to location[:-1] + name before the store (re.sub with the name as "
+        "alias of it, and the presence test reads the entry's own [domain][objtype] table (constant keys must be 'py'/'module'); "
+        "the '$' shorthand is expanded to location[:-1] + name before the store (re.sub with the name as "
         "replacement template and str.replace of every '$' are reported); '' and '-' become None and every other display name "
         "is kept verbatim, decided by evaluating the predicate over abstract values ('', '-', other, equal-to-another-local); "
         "the branch facts dominating the single entry store are exactly Sphinx's skip conditions (match, ':', duplicate "
